@@ -417,14 +417,19 @@ Fixpoint recover_commits (fs : list frame) (cs : list commit) : res (list rtx) :
 Definition last_commit_lsn (cs : list commit) : option N :=
   match rev cs with [] => None | c :: _ => Some (c_last c) end.
 
+(* the tail posture computed by recover_from_frames_and_commits: "last committed" is the LAST marker
+   in iteration order, not the maximum *)
+Definition fc_tail (fs : list frame) (cs : list commit) : tail :=
+  let lastl := last_commit_lsn cs in
+  if existsb (fun f => match lastl with None => true | Some l => l <? f_lsn f end) fs
+  then match lastl with Some l => TAfter l | None => TAll end
+  else TClean.
+
 (* recover_from_frames_and_commits *)
 Definition recover_fc (fs : list frame) (cs : list commit) : res (list rtx * tail) :=
   let* _ := validate_order fs in
   let* ts := recover_commits fs cs in
-  let lastl := last_commit_lsn cs in
-  let tail_exists :=
-    existsb (fun f => match lastl with None => true | Some l => l <? f_lsn f end) fs in
-  Ok (ts, if tail_exists then match lastl with Some l => TAfter l | None => TAll end else TClean).
+  Ok (ts, fc_tail fs cs).
 
 (* RecoveryScanReport::last_committed_lsn (maximum, not last) *)
 Definition max_commit_lsn (ts : list rtx) : option N :=
@@ -536,6 +541,30 @@ Definition tx_recs (t : wtx) : list lrec := map LFrame (w_frames t) ++ [LCommit 
 Definition log_recs (ts : list wtx) : list lrec := flat_map tx_recs ts.
 Definition log_bytes (ts : list wtx) : bytes := encode_log (log_recs ts).
 Definition rtx_of (t : wtx) : rtx := (w_commit t, w_frames t).
+Definition log_frames (ts : list wtx) : list frame := flat_map w_frames ts.
+
+(* A committed transaction as the code itself judges it (validate_transaction_frames accepts it,
+   every field is in range) ... *)
+Definition tx_valid (t : wtx) : Prop :=
+  Forall wf_frame (w_frames t) /\ wf_commit (w_commit t) /\
+  validate_tx (w_frames t) (w_commit t) = Ok tt.
+(* ... and a log whose transactions follow each other without an LSN hole, starting at [l0] *)
+Fixpoint chain_from (l0 : N) (ts : list wtx) : Prop :=
+  match ts with
+  | [] => True
+  | t :: r => c_first (w_commit t) = l0 /\ chain_from (c_last (w_commit t) + 1) r
+  end.
+Definition log_valid (l0 : N) (ts : list wtx) : Prop := Forall tx_valid ts /\ chain_from l0 ts.
+(* frames with consecutive LSNs starting at [l] (an uncommitted tail) *)
+Fixpoint consec (l : N) (fs : list frame) : Prop :=
+  match fs with
+  | [] => True
+  | f :: r => f_lsn f = l /\ consec (l + 1) r
+  end.
+
+(* sizes for the byte-prefix statements *)
+Definition payload_small (r : lrec) : Prop := lenN (lrec_payload r) < 2 ^ 64.
+Definition tx_size (t : wtx) : nat := length (flat_map enc_lrec (tx_recs t)).
 
 End WithHash.
 
@@ -590,9 +619,10 @@ Fixpoint bits_bytes_le (fuel : nat) (bits : list bool) : bytes :=
            end
   end.
 (* the [len]-byte big-endian string whose value is [n] *)
-Definition bytes_of_hex (len : nat) (n : N) : bytes :=
-  let le := match n with N0 => [] | Npos p => bits_bytes_le (S len) (pos_bits p) end in
-  rev (le ++ repeat 0 (len - length le)).
+Definition bytes_of_hex (len : N) (n : N) : bytes :=
+  let ln := N.to_nat len in
+  let le := match n with N0 => [] | Npos p => bits_bytes_le (S ln) (pos_bits p) end in
+  rev (le ++ repeat 0 (ln - length le)).
 
 (* framing-only scan (no digest check), used to enumerate the preimages a run will hash *)
 Fixpoint raw_scan (fuel : nat) (bs : bytes) : list (N * bytes) :=
